@@ -98,11 +98,16 @@ class Ctx:
 
     # ------------------------------------------------------- known findings
     def _load_known(self):
-        p = os.path.join(VERIF, 'known_findings.json')
-        if not os.path.exists(p):
-            return []
-        with open(p) as f:
-            return [e for e in json.load(f).get('findings', []) if e.get('property') == self.prop]
+        out = []
+        paths = [os.path.join(VERIF, 'known_findings.json')]
+        kd = os.path.join(VERIF, 'known_findings.d')
+        if os.path.isdir(kd):
+            paths += [os.path.join(kd, f) for f in sorted(os.listdir(kd)) if f.endswith('.json')]
+        for p in paths:
+            if os.path.exists(p):
+                with open(p) as f:
+                    out += [e for e in json.load(f).get('findings', []) if e.get('property') == self.prop]
+        return out
 
     def violation(self, sig, detail, text=None):
         """Report real-code behaviour that falsifies the property.  `sig` is the
